@@ -13,6 +13,7 @@ precompute; check_common_part; check_unique_rules; initial_free_balances, transc
 validity summaries, consensus parameters and block heights.
 -/
 import FuelVerif.Lemmas.ValidityCheck
+import FuelVerif.Gen.ConsensusDefaults
 namespace FuelVerif.Validity
 open FuelVerif.Fee
 
@@ -63,15 +64,16 @@ theorem fee_limit_above_inputs_rejected {p : Params} {h : Nat} {tx : Tx} {fee : 
 
 /-! ## non-vacuity -/
 
+/-- `ConsensusParameters::standard()` as the translator reads it from the Rust sources (base asset 0, a privileged
+address 77); the examples below are therefore re-checked against the repository's own default limits and gas costs -/
 def exParams : Params :=
-  { maxInputs := 255, maxOutputs := 255, maxWitnesses := 255, maxGasPerTx := 100000000, maxSize := 112640,
-    maxBytecodeSubsections := 255, maxPredicateLength := 1048576, maxPredicateDataLength := 1048576,
-    maxMessageDataLength := 1048576, maxScriptLength := 1048576, maxScriptDataLength := 1048576,
-    contractMaxSize := 102400, maxStorageSlots := 255,
-    fee := ⟨1000000000, 4⟩,
-    gas := { eck1 := 951, s256 := .light 2 214, contractRoot := .light 75 1, stateRoot := .light 412 1,
-             vmInitialization := .heavy 2000 0, newStoragePerByte := 1 },
-    baseAsset := 0, privileged := 77 }
+  { maxInputs := Gen.defaultMaxInputs, maxOutputs := Gen.defaultMaxOutputs, maxWitnesses := Gen.defaultMaxWitnesses,
+    maxGasPerTx := Gen.defaultMaxGasPerTx, maxSize := Gen.defaultMaxSize,
+    maxBytecodeSubsections := Gen.defaultMaxBytecodeSubsections, maxPredicateLength := Gen.defaultMaxPredicateLength,
+    maxPredicateDataLength := Gen.defaultMaxPredicateDataLength, maxMessageDataLength := Gen.defaultMaxMessageDataLength,
+    maxScriptLength := Gen.defaultMaxScriptLength, maxScriptDataLength := Gen.defaultMaxScriptDataLength,
+    contractMaxSize := Gen.defaultContractMaxSize, maxStorageSlots := Gen.defaultMaxStorageSlots,
+    fee := Gen.defaultFeeParams, gas := Gen.defaultGasCosts, baseAsset := 0, privileged := 77 }
 
 /-- a script spending two assets, with a contract, a message-data input, change and coin outputs -/
 def exTx : Tx :=
@@ -82,7 +84,9 @@ def exTx : Tx :=
     outputs := [.coin 0 200, .contract 2, .change 0, .coin 9 500, .change 9, .variable],
     witnesses := [64] }
 
-example : check exParams 10 exTx =
+/-- the standard parameters accept the example and record these balances and gas bounds (an obligation on the
+generated default tables: it is re-proved whenever a default limit or gas cost changes in the Rust sources) -/
+theorem standard_params_accept_example : check exParams 10 exTx =
     .ok { balances := { nonRetryable := [(0, 550), (9, 0)], retryable := 70 }, minGas := 10873, maxGas := 24585 } := by
   decide +kernel
 -- overspending by one: the coin output of asset 9 is 501 with 500 available
